@@ -564,6 +564,21 @@ let run_codec (file : string) =
                | _ -> failwith "bad encidx") in
              let sorted = List.fold_left (fun m (k, it) -> sm_ins lex_cmp m k it) [] es in
              hex_of_bytes (enc_snapshot (n_of_decimal ver) sorted)
+           | ["rtidx"; kt; ver; e] ->
+             (* typed snapshot round trip: entries ordered by the key type's order, encoded, decoded, compared as sets *)
+             let t = parse_kt kt in
+             let es = List.map (fun x -> match String.split_on_char '=' x with
+                 | [k; v] -> (match String.split_on_char ':' v with
+                     | [h; sz] -> (bytes_of_hex k, { ihash = bytes_of_hex h; isize = n_of_decimal sz })
+                     | _ -> failwith "bad entry")
+                 | _ -> failwith "bad entry") (String.split_on_char ';' e) in
+             let es = List.filter (fun (k, _) -> key_valid t k) es in
+             let sorted = List.fold_left (fun m (k, it) -> sm_ins (key_cmp t) m k it) [] es in
+             (match dec_snapshot (enc_snapshot (n_of_decimal ver) sorted) with
+              | Err e -> "err " ^ derr_str e
+              | Ok (_, ds) ->
+                let canon l = List.sort compare (List.map (fun (k, it) -> (hex_of_bytes k, hex_of_bytes it.ihash, decimal_of_n it.isize)) l) in
+                if canon ds = canon sorted then Printf.sprintf "same %d" (List.length sorted) else "differs")
            | ["decidx"; h] ->
              (match dec_snapshot (bytes_of_hex h) with
               | Err e -> "err " ^ derr_str e
